@@ -89,6 +89,18 @@ func loopBounded(b *an.Bounds, li loopInfo) (bool, string) {
 				continue // entry edge
 			}
 			d := b.LinOf(e).Add(an.LinTerm(pt), -1)
+			if !d.IsConst() {
+				// a variable step that is provably at least one in one direction (e.g. the
+				// result of copy into a non-empty window from a non-empty source)
+				latch := li.header.Preds[i]
+				last := latch.Instrs[len(latch.Instrs)-1]
+				switch {
+				case b.ProveAt(last, d.Add(an.LinConst(1), -1)).OK:
+					d = an.LinConst(1)
+				case b.ProveAt(last, d.Scale(-1).Add(an.LinConst(1), -1)).OK:
+					d = an.LinConst(-1)
+				}
+			}
 			if !d.IsConst() || d.C == 0 || (step != 0 && (step > 0) != (d.C > 0)) {
 				okStep = false
 				break
